@@ -183,7 +183,7 @@ def gamma_tgrid(alpha):
     g += logspace(1e-8, far, 512 if TH else 128)
     nb = 385 if TH else 97
     g += [alpha + sd * (-8 + 20 * i / (nb - 1)) for i in range(nb)]
-    g += [1e5, 1e10]
+    g += [1e5, 1e10, 1e100, 1e150, 1e300, INF]   # far beyond the bulk: the cdf is 1 there (and must be returned, not looped for)
     g += cluster(1.0) + cluster(alpha)   # x>1 && x>=alpha : continued fraction
     g = uniq(g)
     return g[g >= 0]
